@@ -132,3 +132,16 @@ package driver
 //@   atreturn base_nonempty: $res5 == nil && len(bases) > 0 ==> aftercall("WaitGroup.Wait", countbase != 0)
 //@   atreturn no_group_error: $res5 == nil ==> aftercall("WaitGroup.Wait", errsrc == nil && errbase == nil)
 //@   atreturn results: $res5 == nil ==> $res0 == aftercall("WaitGroup.Wait", psrc) && $res1 == aftercall("WaitGroup.Wait", pbase)
+
+// ---- C06: tag filters. A key-restricted regexp filter keeps a sample exactly when the sample has the key and at least
+// one of the listed regexps matches at least one of the key's values ----
+//@ func compileTagFilter$6
+//@   requires s != nil && forall i int :: 0 <= i && i < len(rfx) ==> rfx[i] != nil
+//@   ensures keyed: result <==> has(s.Label, wantKey) && exists i int, j int :: 0 <= i && i < len(rfx) && 0 <= j && j < len(s.Label[wantKey]) && match(rfx[i], s.Label[wantKey][j])
+//@   loop 1
+//@     invariant 0 <= $i && $i <= len(rfx) && has(s.Label, wantKey) && same_elems(vals, s.Label[wantKey])
+//@     invariant forall i int, j int :: 0 <= i && i < $i && 0 <= j && j < len(vals) ==> !match(rfx[i], vals[j])
+//@   loop 2
+//@     invariant 0 <= $i && $i <= len(vals) && 0 <= $i1 && $i1 < len(rfx) && rx == rfx[$i1] && has(s.Label, wantKey) && same_elems(vals, s.Label[wantKey])
+//@     invariant forall i int, j int :: 0 <= i && i < $i1 && 0 <= j && j < len(vals) ==> !match(rfx[i], vals[j])
+//@     invariant forall j int :: 0 <= j && j < $i ==> !match(rx, vals[j])
